@@ -135,8 +135,9 @@ func outcomeOK(want val.Outcome, got value.Type, err error) (bool, string) {
 }
 
 type c11case struct {
-	res  core.Result
-	desc []string
+	res         core.Result
+	desc        []string
+	sameStorage bool
 }
 
 func (c *c11case) fail(monitor, input, detail string) {
@@ -161,7 +162,12 @@ func (c *c11case) guard(input string, f func()) {
 func (c *c11case) binary(op string, a, b val.Value) {
 	in := fmt.Sprintf("%s %s %s", val.Debug(a), op, val.Debug(b))
 	c.guard(in, func() {
-		got, err := calcBinary(op, calcrun.ToCalc(a), calcrun.ToCalc(b))
+		ca, cb := calcrun.ToCalc(a), calcrun.ToCalc(b)
+		if c.sameStorage {
+			cb = ca // one value used as both operands (x op x)
+			in += " [same storage]"
+		}
+		got, err := calcBinary(op, ca, cb)
 		want := val.Binary(op, a, b)
 		if ok, d := outcomeOK(want, got, err); !ok {
 			c.fail("value-model", in, d)
@@ -189,6 +195,21 @@ func (c *c11case) laws(a, b val.Value) {
 	in := fmt.Sprintf("laws(%s, %s)", val.Debug(a), val.Debug(b))
 	c.guard(in, func() {
 		ca, cb := calcrun.ToCalc(a), calcrun.ToCalc(b)
+		if c.sameStorage {
+			cb = ca
+			// slices of one array share storage too
+			if a.K == val.Arr && len(a.A) > 0 {
+				s1, e1 := ca.Index(value.NewInt(0), value.NewInt(len(a.A)))
+				s2, e2 := ca.Index(value.NewInt(0), value.NewInt(len(a.A)))
+				if e1 == nil && e2 == nil {
+					want := val.Binary("==", a, a)
+					got, err := s1.Eq(bytecode.EQ, s2)
+					if ok, d := outcomeOK(want, got, err); !ok {
+						c.fail("value-model", in+" [equal slices of one array]", d)
+					}
+				}
+			}
+		}
 		eqab, e1 := calcBool("==", ca, cb)
 		eqba, e2 := calcBool("==", cb, ca)
 		neab, e3 := calcBool("!=", ca, cb)
@@ -425,6 +446,14 @@ func init() {
 					c.binary(op, a, b)
 				}
 				c.laws(a, b)
+				if idx/n == idx%n {
+					c.sameStorage = true
+					for _, op := range binOps {
+						c.binary(op, a, a)
+					}
+					c.laws(a, a)
+					c.res.Add("same_storage_pairs", 1)
+				}
 				return c11Finish(c, fmt.Sprintf("pair(%s, %s)", val.Debug(a), val.Debug(b)))
 			}},
 			{Name: "unary", Count: func(string) int { return n }, Run: func(_ *core.Ctx, idx int) core.Result {
@@ -443,10 +472,11 @@ func init() {
 			{Name: "random", Count: countFn(30000, 3000000), Run: func(ctx *core.Ctx, idx int) core.Result {
 				r := core.CaseRng(ctx.Seed, "C11/random", idx)
 				a, b := randValue(r, 2), randValue(r, 2)
+				c := &c11case{}
 				if r.Chance(1, 4) {
 					b = a
+					c.sameStorage = r.Bool()
 				}
-				c := &c11case{}
 				for _, op := range binOps {
 					c.binary(op, a, b)
 				}
@@ -461,7 +491,7 @@ func init() {
 			}},
 		},
 		Sanitize: []string{"pairs", "unary", "index", "random"},
-		Floors: []core.Floor{{Key: "tuples", Quick: 300000, Thor: 3000000}, {Key: "law_evaluations", Quick: 20000, Thor: 2000000}, {Key: "tag:op:", Quick: 400, Thor: 400}, {Key: "nontrivial", Quick: 20000, Thor: 1000000}},
+		Floors: []core.Floor{{Key: "tuples", Quick: 300000, Thor: 3000000}, {Key: "law_evaluations", Quick: 20000, Thor: 2000000}, {Key: "tag:op:", Quick: 400, Thor: 400}, {Key: "same_storage_pairs", Quick: 60, Thor: 60}, {Key: "nontrivial", Quick: 20000, Thor: 1000000}},
 		Extra: func(a *core.Agg, cov map[string]any) {
 			cov["exhaustive_subspaces"] = "pairs, unary and index families enumerate the pool completely in both tiers"
 		},
